@@ -125,7 +125,9 @@ func (st TrackerStatus) String() string {
 
 	// other filters
 	for k, v := range trackerStatusString {
-		if st&k > 0 {
+		// only names whose bits are all set: a composite name like
+		// "error" would otherwise widen the filter when parsed back.
+		if k != TrackerStatusUndefined && st&k == k {
 			values = append(values, v)
 		}
 	}
